@@ -151,11 +151,40 @@ func VerifHarness_C02_Interleaved() {
 	qs := []string{"aa", "cc dd", "bb ee", "ff"}
 	q := qs[verifIntRange("query", 0, 3)]
 	other := qs[verifIntRange("other", 0, 3)]
-	o := SearchOptions{Limit: 3, AllPlatforms: true, UseNLP: true}
+	o := SearchOptions{Limit: 3, AllPlatforms: true, UseNLP: verifBool("nlp"), PipelineOnly: verifBool("pipelineOnly")}
 	a := db.SearchUniversal(q, o)
-	_ = db.SearchUniversal(other, o)
+	oo := o
+	oo.PipelineOnly = verifBool("otherPipelineOnly")
+	_ = db.SearchUniversal(other, oo)
 	b := db.SearchUniversal(q, o)
 	c02SameResults(a, b, "SearchUniversal after another query")
+	verifReach("compared")
+	if len(a) > 0 {
+		verifReach("nonempty")
+	}
+}
+
+// more distinct terms than the term cap, several of them equally rare: which ones survive the
+// cut must not depend on any map order
+func VerifHarness_C02_TermCapTies() {
+	mk := func(cmd, desc string) Command {
+		c := Command{Command: cmd, Description: desc}
+		vFill(&c)
+		return c
+	}
+	db := &Database{Commands: []Command{
+		mk("c1", "aa"), mk("c2", "bb"), mk("c3", "cc"), mk("c4", "dd"), mk("c5", "ee"), mk("c6", "ff"), mk("c7", "gg"), mk("c8", "hh"),
+	}}
+	db.BuildUniversalIndex()
+	q := "aa bb cc dd ee ff gg hh"
+	o := SearchOptions{Limit: 8, AllPlatforms: true, TopTermsCap: verifIntRange("termsCap", 5, 7)}
+	a := db.SearchUniversal(q, o)
+	verifMapOrder(3)
+	verifMapOrderBig(true)
+	b := db.SearchUniversal(q, o)
+	verifMapOrderBig(false)
+	verifMapOrder(1)
+	c02SameResults(a, b, "SearchUniversal, term cap with equally rare terms")
 	verifReach("compared")
 	if len(a) > 0 {
 		verifReach("nonempty")
